@@ -3,7 +3,7 @@ import GMGDriver.Util
 /-! `gmgdriver trace`: the instruction traces logged by the GMGPOLAR_VERIF hooks against the programs of `GMGModel/Cycle.lean`
 (C10 cycles, C09 start-up, C01 solve loop, C13 reuse) and the numeric oracles the harness evaluated on the implementation. -/
 namespace TraceDrv
-open Drv Cycle
+open Drv MGCycle
 
 structure St where
   stats : Stats := {}
